@@ -2,4 +2,4 @@ From Coq Require Import Extraction ExtrOcamlBasic.
 From SV Require Import Base.Bytes Base.IO Model.Headers Model.IOSched Model.Response Model.Conn Model.Server Model.ConnInst Spec.ConnSpec.
 Extraction Language OCaml.
 Extraction "c05_model.ml" cstep_inst conn_new oracle_c05_step guard_error is_ready resp_new resp_text resp_drop mem_body
-  reason_text_ok mk_cin mk_in.
+  reason_text_ok mk_cin mk_in collides.
